@@ -66,8 +66,9 @@ func c17EncCheck(c c17Enc) (fs []rep.Finding) {
 		cls = "v!=n"
 	}
 	want := refBIP276Encode(c.Prefix, c.Version, c.Network, data)
-	if c.DataLen == 0 {
-		// the statement speaks of "any payload"; an empty one has no data digits at all
+	if c.DataLen == 0 && c.Version == c.Network {
+		// the statement speaks of "any payload"; an empty one has no data digits at all. (With
+		// version != network the field-order finding applies to empty payloads as to any other.)
 		cls += ",empty"
 	}
 	if got != want {
@@ -79,6 +80,16 @@ func c17EncCheck(c c17Enc) (fs []rep.Finding) {
 		fs = append(fs, rep.F("roundtrip|decode-rejects-own-encoding|"+cls, err.Error(), "text", trunc(got)))
 	} else if d.Prefix != c.Prefix || d.Version != c.Version || d.Network != c.Network || !bytes.Equal(d.Data, data) {
 		fs = append(fs, rep.F("roundtrip|fields-differ|"+cls, fmt.Sprintf("got prefix=%s v=%d n=%d", d.Prefix, d.Version, d.Network)))
+	} else {
+		// the decoded value is the caller's: decoding other texts must not change it
+		other := fill(c.DataLen, ^byte(c.Version*3+c.Network))
+		for i := 0; i < 3; i++ {
+			_, _ = bscript.DecodeBIP276(bscript.EncodeBIP276(bscript.BIP276{Prefix: c.Prefix, Version: c.Version, Network: c.Network, Data: other}))
+			_, _ = bscript.DecodeBIP276(refBIP276Encode(c.Prefix, c.Version, c.Network, other))
+		}
+		if !bytes.Equal(d.Data, data) {
+			fs = append(fs, rep.F("roundtrip|decoded-data-changes-later", "data returned by an earlier decode changed when another text was decoded"))
+		}
 	}
 	// the specified layout must decode too
 	d, err = bscript.DecodeBIP276(want)
@@ -128,12 +139,12 @@ func c17TextCheck(c c17Text) (fs []rep.Finding) {
 
 func init() {
 	p := register(&Prop{ID: "C17", Level: "exploration",
-		Rule: "exhaustive: all 65,025 (version,network) pairs in 1..255 x prefixes {bitcoin-script, bitcoin-template} x payload lengths {1,20} (quick) / {0,1,2,20,33,100} (thorough) plus out-of-range fields {0,256,-1}: EncodeBIP276 text byte-identical to the reference layout, decode(encode(x))=x, spec-layout text decodes, ValidateAddress <=> decodes; and for 40 valid encodings (library-made and spec-made) EVERY single-character substitution over the alphabet 0-9a-fA-F:gz and space at every position, every deletion and every insertion (the valid text is decoded first, then the corrupted one): rejected whenever the reference decoder (checksum over the text, hex case-insensitive) rejects. distinct_nontrivial = distinct texts judged",
+		Rule: "exhaustive: all 65,025 (version,network) pairs in 1..255 x prefixes {bitcoin-script, bitcoin-template} x payload lengths {0,1,20} (quick) / {0,1,2,20,33,100} (thorough) plus out-of-range fields {0,256,-1}: EncodeBIP276 text byte-identical to the reference layout, decode(encode(x))=x, spec-layout text decodes, ValidateAddress <=> decodes; and for 40 valid encodings (library-made and spec-made) EVERY single-character substitution over the alphabet 0-9a-fA-F:gz and space at every position, every deletion and every insertion (the valid text is decoded first, then the corrupted one): rejected whenever the reference decoder (checksum over the text, hex case-insensitive) rejects. distinct_nontrivial = distinct texts judged",
 	})
 	sE := NewSpace(p, "encode", c17EncCheck)
 	sT := NewSpace(p, "text", c17TextCheck)
 	p.Run = func(r *rep.Run, thorough bool) {
-		lens := []int{1, 20}
+		lens := []int{0, 1, 20}
 		if thorough {
 			lens = []int{0, 1, 2, 20, 33, 100}
 		}
